@@ -45,6 +45,10 @@ def flushAck (c : RCfg) (s : RState) : RState × List AckObs :=
   | (w', .ok _) => ({ s with win := w' }, ackOut c.rep s.bn w'.file)
   | (w', _) => ({ s with win := w', status := .failed }, [])
 
+/-- `receive_file` returns `Ok(())` after the final block unless flushing failed -/
+def markOk (r : RState × List AckObs) : RState × List AckObs :=
+  (if r.1.status = .running then { r.1 with status := .ok } else r.1, r.2)
+
 def rStep (c : RCfg) (s : RState) (ev : REv) : RState × List AckObs :=
   match s.status with
   | .running =>
@@ -56,8 +60,7 @@ def rStep (c : RCfg) (s : RState) (ev : REv) : RState × List AckObs :=
           let s1 := { s with bn := n, win := w', retry := 0, accepted := payload :: s.accepted }
           if payload.length < c.b then
             -- final block: flush, acknowledge, done
-            let r := flushAck c s1
-            (if r.1.status = .running then { r.1 with status := .ok } else r.1, r.2)
+            markOk (flushAck c s1)
           else if w'.isFull then
             -- window full: flush, acknowledge, next window (`retry_cnt = 0`)
             flushAck c s1
